@@ -2,6 +2,7 @@ SPECIFICATION Spec
 CONSTANTS
   MaxMods = 2
   MaxDecls = 2
+  ImportPositions = TRUE
   Dirs <- FlatDirs
 INVARIANTS VisibleOK NoLeak EmitCase
 CHECK_DEADLOCK FALSE
